@@ -39,7 +39,18 @@ pub enum Expr {
     /// the expression and is dropped, wherever it is, when the expression is
     /// done (an executor abandoning a sub-query); result = the expression
     Race(u32, Box<Expr>),
+    /// partial executor: the value of the expression if its first element is
+    /// not zero; outside that domain the executor panics (the from-scratch
+    /// model yields `UNDEF`). Programs only read such nodes behind a guard
+    /// (`If(g, Read(p), ..)` with `p` defined whenever `g` is not zero), the
+    /// pattern of a division guarded by a test of the divisor.
+    NonZero(Box<Expr>),
 }
+
+/// the from-scratch "value" of a node evaluated outside its domain
+pub const UNDEF: i64 = i64::MIN;
+
+pub fn is_undef(v: &Val) -> bool { v.len() == 1 && v[0] == UNDEF }
 
 #[derive(Clone, Debug, PartialEq, Eq, Hash, Serialize, Deserialize)]
 pub struct Node {
@@ -91,6 +102,7 @@ fn collect_reads(e: &Expr, out: &mut Vec<u32>) {
             out.push(*n);
             collect_reads(a, out);
         }
+        Expr::NonZero(a) => collect_reads(a, out),
     }
 }
 
@@ -122,15 +134,28 @@ pub trait Reader: Sync {
     fn read(&self, n: u32) -> BoxFut<'_, Result<Val, Abort>>;
     fn read_join(&self, ns: &[u32]) -> BoxFut<'_, Result<Vec<Val>, Abort>>;
     fn read_unord(&self, ns: &[u32]) -> BoxFut<'_, Result<Vec<Val>, Abort>>;
+    /// a partial executor is evaluated outside its domain: real executors
+    /// panic, the from-scratch model yields `UNDEF`
+    fn outside_domain(&self) -> Val { panic!("partial executor evaluated outside its domain") }
 }
 
 pub fn eval<'a, R: Reader>(e: &'a Expr, r: &'a R) -> BoxFut<'a, Result<Val, Abort>> {
+    // `UNDEF` (model only) absorbs every operation it meets
+    macro_rules! ev {
+        ($x:expr) => {{
+            let v = eval($x, r).await?;
+            if is_undef(&v) {
+                return Ok(v);
+            }
+            v
+        }};
+    }
     Box::pin(async move {
         Ok(match e {
             Expr::Const(v) => v.clone(),
             Expr::Read(n) => r.read(*n).await?,
             Expr::Idx(a, i) => {
-                let v = eval(a, r).await?;
+                let v = ev!(a);
                 if v.is_empty() {
                     vec![0]
                 } else {
@@ -138,47 +163,65 @@ pub fn eval<'a, R: Reader>(e: &'a Expr, r: &'a R) -> BoxFut<'a, Result<Val, Abor
                 }
             }
             Expr::Add(a, b) => {
-                let x = eval(a, r).await?;
-                let y = eval(b, r).await?;
+                let x = ev!(a);
+                let y = ev!(b);
                 zip_with(&x, &y, i64::wrapping_add)
             }
-            Expr::Mul(a, k) => {
-                eval(a, r).await?.iter().map(|x| x.wrapping_mul(*k)).collect()
-            }
+            Expr::Mul(a, k) => ev!(a).iter().map(|x| x.wrapping_mul(*k)).collect(),
             Expr::Mod(a, k) => {
                 let k = if *k == 0 { 1 } else { k.abs() };
-                eval(a, r).await?.iter().map(|x| x.rem_euclid(k)).collect()
+                ev!(a).iter().map(|x| x.rem_euclid(k)).collect()
             }
             Expr::Min(a, b) => {
-                let x = eval(a, r).await?;
-                let y = eval(b, r).await?;
+                let x = ev!(a);
+                let y = ev!(b);
                 zip_with(&x, &y, i64::min)
             }
             Expr::Cat(a, b) => {
-                let mut x = eval(a, r).await?;
-                let y = eval(b, r).await?;
+                let mut x = ev!(a);
+                let y = ev!(b);
                 x.extend(y);
                 x.truncate(6);
                 x
             }
             Expr::If(c, t, f) => {
-                let cv = eval(c, r).await?;
+                let cv = ev!(c);
                 if first(&cv) != 0 { eval(t, r).await? } else { eval(f, r).await? }
             }
-            Expr::Join(ns) => sum_all(&r.read_join(ns).await?),
-            Expr::Unord(ns) => sum_all(&r.read_unord(ns).await?),
+            Expr::Join(ns) => {
+                let vs = r.read_join(ns).await?;
+                if let Some(u) = vs.iter().find(|v| is_undef(v)) {
+                    return Ok(u.clone());
+                }
+                sum_all(&vs)
+            }
+            Expr::Unord(ns) => {
+                let vs = r.read_unord(ns).await?;
+                if let Some(u) = vs.iter().find(|v| is_undef(v)) {
+                    return Ok(u.clone());
+                }
+                sum_all(&vs)
+            }
+            Expr::NonZero(a) => {
+                let v = ev!(a);
+                if first(&v) == 0 {
+                    return Ok(r.outside_domain());
+                }
+                v
+            }
             Expr::Race(n, inner) => {
                 let mut side = r.read(*n);
                 let mut main = eval(inner, r);
                 let mut side_done = false;
                 std::future::poll_fn(|cx| {
-                    // biased towards the expression; the side read is only
-                    // driven while the expression is pending
-                    if let std::task::Poll::Ready(v) = main.as_mut().poll(cx) {
-                        return std::task::Poll::Ready(v);
-                    }
+                    // the side read is started first (its callee is the
+                    // first one registered) and then only driven while the
+                    // expression is pending
                     if !side_done && side.as_mut().poll(cx).is_ready() {
                         side_done = true;
+                    }
+                    if let std::task::Poll::Ready(v) = main.as_mut().poll(cx) {
+                        return std::task::Poll::Ready(v);
                     }
                     std::task::Poll::Pending
                 })
